@@ -112,7 +112,7 @@ class Term:
                     # bulk-consume payload characters up to the next ESC / BEL
                     j = min((k for k in (t.find("\x1b", i), t.find("\x07", i)) if k >= 0), default=n)
                     if j > i:
-                        self.buf.append(Opq("literal-payload", z3.IntVal(0), z3.IntVal(j - i), ("literal", t[i:j] if j - i <= 64 else None)))
+                        self.buf.append(Opq("literal-payload", z3.IntVal(0), z3.IntVal(j - i), ("literal", t[i:j])))
                         i = j
                         continue
                 self._atom(t[i])
@@ -259,14 +259,17 @@ class Term:
             params = []
         return priv, params
 
-    def _number(self, atoms):
+    def _number(self, atoms, signed=False):
         if not atoms:
             return None
         if len(atoms) == 1 and isinstance(atoms[0], Dec):
-            self.events.append(("negative number in a control sequence", atoms[0].v < 0))
+            if not signed:
+                self.events.append(("negative number in a control sequence", atoms[0].v < 0))
             return atoms[0].v
         if all(isinstance(a, str) and a.isdigit() for a in atoms):
             return z3.IntVal(int("".join(atoms)))
+        if signed and atoms[0] == "-" and len(atoms) > 1 and all(isinstance(a, str) and a.isdigit() for a in atoms[1:]):
+            return z3.IntVal(-int("".join(atoms[1:])))
         if any(a == "-" for a in atoms if isinstance(a, str)):
             self.events.append(("negative number in a control sequence", z3.BoolVal(True)))
             return z3.IntVal(0)
@@ -377,7 +380,7 @@ class Term:
             raise EngineLimit(f"{kind} string")
 
     def _kv_num(self, v):
-        return self._number(v)
+        return self._number(v, signed=True)
 
     def _kv_str(self, v):
         if all(isinstance(a, str) for a in v):
